@@ -76,6 +76,8 @@ MUTANTS = {'attach_first': ('NoEarlyWrite', 'AttachLast', 'Outcome'),
            'tail_value_lost': ('Outcome', 'ReadBack'),
            # a list reached twice inside a literal value rebuilt as [] the second time
            'alias_lost': dict(universe=None, laws=('Outcome', 'ReadBack')),
+           # containers created for missing segments filled through another registry's handlers
+           'tail_default_registry': ('ExecRegistryOnly',),
            # state kept on the spec object between evaluations
            'memo_split': dict(universe=None, laws=('SpecCarriesNothing', 'Outcome', 'NeverReplaced', 'FactoryLaw'))}
 NRANDOM = {'quick': 6000, 'thorough': 60000}
@@ -94,6 +96,11 @@ ASSUMPTIONS = [
     'spec-object reuse: one Assign(path, literal, missing=dict|obj) object on every ordered pair of targets of a '
     'small family (two glom calls; one call over a list of the two targets when both are expected to succeed), and '
     'random pairs in the recorded direction; assign() itself builds a fresh spec per call',
+    'registries: the logging classes are registered (documented built-in behaviour, handlers tagged with their '
+    'registry) on the default registry and on one Glommer; cases with missing= are also run through the Glommer; '
+    'on plain builtins the default registrations of glom itself are exercised',
+    'short-lived classes: every 12th case is also run on target classes made with type() right after classes of '
+    'other kinds were created, used through string segments, deleted and garbage-collected',
     'wildcards: only * (not **), only among the parent segments and without missing=; a failing match ends the '
     'broadcast with the earlier matches assigned (no atomicity is claimed for wildcard paths); sets are never '
     'enumerated by a wildcard (iteration order)',
